@@ -4,8 +4,105 @@ from ..alg import Unanalysable
 from ..report import Check
 
 
+def cfg_atoms(repo=None):
+    """atoms of every conditional-compilation predicate in the crate's sources (attributes are stripped before HIR, so the
+    source text is the only place they exist): {atom: [file:line, ..]}"""
+    import os
+    import re
+
+    repo = repo or FX.REPO
+    out = {}
+    for root, _d, files in os.walk(os.path.join(repo, "src")):
+        for fn in files:
+            if not fn.endswith(".rs"):
+                continue
+            path = os.path.join(root, fn)
+            try:
+                text = open(path).read()
+            except OSError:
+                continue
+            for m in re.finditer(r"\bcfg(_attr)?\s*!?\s*\(", text):
+                i, depth = m.end(), 1
+                while i < len(text) and depth:
+                    depth += text[i] == "("
+                    depth -= text[i] == ")"
+                    i += 1
+                pred = text[m.end():i - 1]
+                if m.group(1):  # cfg_attr(pred, attrs..): the predicate is the first top-level argument
+                    d_, k_ = 0, len(pred)
+                    for k, ch in enumerate(pred):
+                        d_ += ch == "("
+                        d_ -= ch == ")"
+                        if ch == "," and d_ == 0:
+                            k_ = k
+                            break
+                    if pred[k_ + 1:].strip() == "no_std":
+                        continue  # `#![cfg_attr(not(feature = "std"), no_std)]`: selects the prelude, gates no code of the crate
+                    pred = pred[:k_]
+                line = text.count("\n", 0, m.start()) + 1
+                where = f"{os.path.relpath(path, repo)}:{line}"
+                atoms = set(f'feature = "{x}"' for x in re.findall(r'feature\s*=\s*"([^"]*)"', pred))
+                rest = re.sub(r'\w+\s*=\s*"[^"]*"', " ", pred)
+                atoms |= {w for w in re.findall(r"[A-Za-z_][A-Za-z0-9_]*", rest) if w not in ("not", "any", "all")}
+                atoms |= set(f'{k_} = "{v_}"' for k_, v_ in re.findall(r'(\w+)\s*=\s*"([^"]*)"', pred) if k_ != "feature")
+                for a in atoms:
+                    out.setdefault(a, []).append(where)
+    return out
+
+
+REVIEWED_CFG = {"test", 'feature = "yoloproofs"'}  # what the pinned tree uses: both are on in the analysed configurations
+COVERED_CFG = {'feature = "parallel"', 'feature = "std"', 'feature = "rand"'}  # decided by one of the three feature configurations
+
+
 def configs_for(tier):
-    return ["default"] if tier == "quick" else ["default", "nostd", "parallel"]
+    if tier != "quick":
+        return ["default", "nostd", "parallel"]
+    # the quick tier analyses the default configuration only -- as long as the crate's own code does not depend on the
+    # configuration.  Code gated on a feature the other configurations toggle makes the quick tier analyse them too.
+    atoms = set(cfg_atoms())
+    return ["default", "nostd", "parallel"] if atoms & COVERED_CFG else ["default"]
+
+
+def dependency_rule(ck):
+    """Every claim rests on the published behaviour of the dependencies (Merlin, arkworks, SHA-3, ChaCha).  A registry
+    package with a checksum is immutable; a `path`/`git` source or a `[patch]`/`[replace]` section puts arbitrary local code
+    under a trusted name without touching the analysed crate: fail closed.  (A different registry *version* is a
+    not-decided note where a version was reviewed, see C08 R08.4 - not a violation.)"""
+    import os
+    import re
+
+    try:
+        lock = open(os.path.join(FX.REPO, "Cargo.lock")).read()
+        toml = open(os.path.join(FX.REPO, "Cargo.toml")).read()
+    except OSError as ex:
+        ck.fail("DEP", "manifest-readable", f"Cargo.toml / Cargo.lock not readable: {ex}", kind="anchor-missing")
+        return
+    root = re.search(r'^\[package\][^\[]*?^name\s*=\s*"([^"]+)"', toml, re.M | re.S)
+    root = root.group(1) if root else None
+    bad = []
+    for blk in lock.split("[[package]]")[1:]:
+        name = re.search(r'name = "([^"]+)"', blk)
+        name = name.group(1) if name else "?"
+        src = re.search(r'source = "([^"]*)"', blk)
+        chk = re.search(r'checksum = "([0-9a-f]+)"', blk)
+        if name == root and not src:
+            continue
+        if not (src and src.group(1).startswith("registry+") and chk):
+            bad.append(f"{name} ({src.group(1) if src else 'path dependency'})")
+    for sec in re.findall(r"^\[(patch[^\]]*|replace)\]", toml, re.M):
+        bad.append(f"[{sec}] section in Cargo.toml")
+    if bad:
+        ck.fail("DEP", "registry-sources", f"dependencies that are not immutable registry packages: {bad[:5]} - the analysed crate is unchanged but the code under a trusted name is not the reviewed one", "Cargo.toml", kind="unanalysable")
+
+
+def cfg_rule(ck):
+    """conditional compilation the analysed configurations do not decide (debug_assertions, target_*, an unknown feature)
+    lets behaviour differ between the build the tests and this analysis see and the build a user runs: fail closed"""
+    atoms = cfg_atoms()
+    for a, wh in sorted(atoms.items()):
+        if a in REVIEWED_CFG or a in COVERED_CFG:
+            continue
+        ck.fail("CFG", f"predicate:{a}", f"conditional compilation on `{a}` ({', '.join(wh[:3])}): none of the analysed configurations (default, no-std, parallel) decides it, so the code behind it is not what was analysed", wh[0], kind="unanalysable")
 
 
 def run_configs(pid, tier, level, body, explanation, rule_text, not_decided=(), assumptions=()):
@@ -16,6 +113,8 @@ def run_configs(pid, tier, level, body, explanation, rule_text, not_decided=(), 
     ck.not_decided = list(not_decided)
     ck.assumptions = list(assumptions)
     sigs = []
+    cfg_rule(ck)
+    dependency_rule(ck)
     for cfg in configs_for(tier):
         F = FX.load(cfg)
         ck.configs.append(cfg)
